@@ -18,7 +18,7 @@ func init() {
 
 	register(&Rule{ID: "C16.a", Doc: "marker emission guarded by shouldEmitLineMarkers; flag and path confined to their role", Floor: 18, Run: c16a})
 	register(&Rule{ID: "C16.b", Doc: "each marker's token belongs to the construct rendered by the next write", Floor: 13, Run: c16b})
-	register(&Rule{ID: "C16.c", Doc: "no position-less / unassigned tokens; operand token is the operand's first token", Floor: 6, Run: c16c})
+	register(&Rule{ID: "C16.c", Doc: "no position-less / unassigned tokens; operand token is the operand's first token", Floor: 43, Run: c16c})
 }
 
 // markerRoles computes, for every emitter function, which (bool, string) parameter pairs
